@@ -1,6 +1,7 @@
 import Dbg.Spec.C03
 import Dbg.Lemmas.GraphProofs
 import Dbg.Lemmas.Beam
+import Dbg.Lemmas.MaxPathFuel
 import Dbg.Lemmas.GraphSym
 import Dbg.Lemmas.GInvCompress
 import Dbg.Lemmas.EdgeComplete
@@ -78,6 +79,24 @@ theorem C03_maxPath_sequence (g : G D) (hK : 1 ≤ g.K) (hl : ∀ (i : Nat) (n :
   have hw := maxPath_walk g score solid
   rw [hp] at hw ⊢
   exact walk_sequence g hK hl p0 rest (hw.nodes p0 (by simp)) (fun p h => hw.nodes p (by simp [h])) (hw.chain p0 rest rfl)
+
+/-- **the fuel of the model of `max_path` is adequate**: each step of the greedy walk takes a node that was not used before,
+    so from any start node both arms give the same result for every amount of fuel from `nodes.length` on — the
+    `loop` of the crate ends after at most `nodes.length` steps per direction. -/
+theorem C03_maxPath_fuel (g : G D) (score : D → Int) (solid : D → Bool) (best : Nat) (hbest : best < g.nodes.length)
+    (f : Nat) (hf : g.nodes.length ≤ f) :
+    maxPathArm g score solid false f (best, .L) [best] [(best, .L)] =
+      maxPathArm g score solid false g.nodes.length (best, .L) [best] [(best, .L)] ∧
+    maxPathArm g score solid true f (best, .R) (maxPathArm g score solid false g.nodes.length (best, .L) [best] [(best, .L)]).2
+        (maxPathArm g score solid false g.nodes.length (best, .L) [best] [(best, .L)]).1 =
+      maxPathArm g score solid true g.nodes.length (best, .R) (maxPathArm g score solid false g.nodes.length (best, .L) [best] [(best, .L)]).2
+        (maxPathArm g score solid false g.nodes.length (best, .L) [best] [(best, .L)]).1 := by
+  have h0 : [best].Nodup := by simp
+  have h1 : ∀ u ∈ [best], u < g.nodes.length := by
+    intro u hu; simp only [List.mem_cons, List.mem_nil_iff, or_false] at hu; subst hu; exact hbest
+  obtain ⟨r1, r2, r3⟩ := arm_used g score solid false g.nodes.length (best, .L) [best] [(best, .L)] h0 h1
+  refine ⟨arm_fuel g score solid false f g.nodes.length _ _ _ h0 h1 (by omega) (by omega), ?_⟩
+  exact arm_fuel g score solid true f g.nodes.length _ _ _ r1 r2 (by omega) (by omega)
 
 /-- **C03 (beam search).** Every path `max_path_beam` returns — for every graph, beam width and score — is a trail:
     consecutive entries follow reported edges and every node exists (a node may occur twice: the search keeps paths
